@@ -1,13 +1,992 @@
 /-
   C12 — Points and Space behave as a table with named column groups.
+  Property theorems about TPV.Model.Space / TPV.Model.Points (the definitions the driver executes),
+  each with a non-vacuity example; helper lemmas are listed as aux_lemmas in obligations/C12.json.
 -/
 import TPV.Model.Space
 import TPV.Model.Points
-
 namespace TPV.Table
 
-/-- equality of spaces is order-sensitive: two spaces with the same items in a different order differ -/
+/-! ## Space -/
+
+/-- **equality of spaces is order-sensitive**: the same items in a different order are a different space -/
 theorem space_eq_order_sensitive (a b : Space) (h : a.vars ≠ b.vars) : a ≠ b := by
   intro e; exact h (by rw [e])
+
+example : (⟨[("x", 1), ("t", 2)]⟩ : Space) ≠ ⟨[("t", 2), ("x", 1)]⟩ :=
+  space_eq_order_sensitive _ _ (by decide)
+
+@[simp] theorem keys_nil : keys ([] : Vars) = [] := rfl
+@[simp] theorem keys_cons (v : String × Nat) (r : Vars) : keys (v :: r) = v.1 :: keys r := rfl
+
+theorem dimOf_eq_zero_of_not_mem {l : Vars} {n : String} (h : n ∉ keys l) : dimOf l n = 0 := by
+  induction l with
+  | nil => rfl
+  | cons v r ih =>
+    obtain ⟨m, d⟩ := v
+    simp only [keys_cons, List.mem_cons, not_or] at h
+    simp only [dimOf]
+    rw [if_neg (fun e => h.1 e.symm)]
+    exact ih h.2
+
+theorem dimOf_append (l1 l2 : Vars) (n : String) :
+    dimOf (l1 ++ l2) n = if n ∈ keys l1 then dimOf l1 n else dimOf l2 n := by
+  induction l1 with
+  | nil => simp
+  | cons v r ih =>
+    obtain ⟨m, d⟩ := v
+    simp only [List.cons_append, dimOf, keys_cons, List.mem_cons]
+    by_cases e : m = n
+    · subst e; simp
+    · have e' : ¬ n = m := fun h => e h.symm
+      simp only [e, e', if_false, false_or]
+      exact ih
+
+theorem dimOf_filter_none (l : Vars) (g : String × Nat → Bool) (n : String)
+    (h : ∀ v ∈ l, v.1 = n → g v = false) : dimOf (l.filter g) n = 0 := by
+  apply dimOf_eq_zero_of_not_mem
+  simp only [keys, List.mem_map, List.mem_filter, not_exists, not_and]
+  intro v ⟨hv, hg⟩ e
+  rw [h v hv e] at hg; exact absurd hg (by simp)
+
+theorem dimOf_mulLeft (l b : Vars) (n : String) (hl : (keys l).Nodup) :
+    dimOf ((l.map fun v => (v.1, v.2 + dimOf b v.1)).filter (fun v => 0 < v.2)) n
+      = if n ∈ keys l then dimOf l n + dimOf b n else 0 := by
+  induction l with
+  | nil => simp [dimOf]
+  | cons v r ih =>
+    obtain ⟨m, d⟩ := v
+    simp only [keys_cons, List.nodup_cons] at hl
+    have ih := ih hl.2
+    simp only [List.map_cons, List.filter_cons, keys_cons, List.mem_cons]
+    by_cases e : m = n
+    · subst e
+      have hz : dimOf r m = 0 := dimOf_eq_zero_of_not_mem hl.1
+      by_cases p : 0 < d + dimOf b m
+      · simp [p, dimOf]
+      · simp only [decide_eq_true_eq, p, if_false, true_or, if_true, dimOf]
+        rw [ih, if_neg hl.1]; omega
+    · have e' : ¬ n = m := fun h => e h.symm
+      by_cases p : 0 < d + dimOf b m
+      · simp only [decide_eq_true_eq, p, if_true, dimOf, e, if_false, e', false_or]
+        exact ih
+      · simp only [decide_eq_true_eq, p, if_false, dimOf, e, e', false_or]
+        exact ih
+
+theorem mem_keys_mulLeft (l b : Vars) (n : String) :
+    n ∈ keys ((l.map fun v => (v.1, v.2 + dimOf b v.1)).filter (fun v => 0 < v.2)) → n ∈ keys l := by
+  simp only [keys, List.mem_map, List.mem_filter]
+  rintro ⟨v, ⟨⟨w, hw, rfl⟩, _⟩, rfl⟩
+  exact ⟨w, hw, rfl⟩
+
+theorem dimOf_mulRight (a b : Vars) (n : String) (hb : (keys b).Nodup) (hn : n ∉ keys a) :
+    dimOf (b.filter (fun v => !(keys a).contains v.1 && decide (0 < v.2))) n = dimOf b n := by
+  induction b with
+  | nil => rfl
+  | cons v r ih =>
+    obtain ⟨m, d⟩ := v
+    simp only [keys_cons, List.nodup_cons] at hb
+    have ih := ih hb.2
+    simp only [List.filter_cons]
+    by_cases e : m = n
+    · subst e
+      have hz : dimOf r m = 0 := dimOf_eq_zero_of_not_mem hb.1
+      have hc : (keys a).contains m = false := by simpa using hn
+      by_cases p : 0 < d
+      · simp [hn, p, dimOf]
+      · simp only [hc, Bool.not_false, Bool.true_and, decide_eq_true_eq, p, if_false, dimOf, if_true]
+        rw [ih, hz]; omega
+    · split
+      · simp only [dimOf, e, if_false]; exact ih
+      · simp only [dimOf, e, if_false]; exact ih
+
+/-- the dimension of every name in a product is the sum of its dimensions in the factors
+    (a name that is missing counts 0) -/
+theorem dimOf_mul (a b : Space) (ha : a.Keyed) (hb : b.Keyed) (n : String) :
+    dimOf (a.mul b).vars n = dimOf a.vars n + dimOf b.vars n := by
+  simp only [Space.mul, dimOf_append]
+  by_cases hn : n ∈ keys a.vars
+  · split
+    · rw [dimOf_mulLeft _ _ _ ha, if_pos hn]
+    · rename_i h
+      rw [dimOf_filter_none]
+      · -- the left entry vanished, so the sum is 0
+        have := dimOf_mulLeft a.vars b.vars n ha
+        rw [if_pos hn, dimOf_eq_zero_of_not_mem h] at this
+        omega
+      · intro v _ e
+        have hv : v.1 ∈ keys a.vars := e ▸ hn
+        simp [hv]
+  · have h : n ∉ keys ((a.vars.map fun v => (v.1, v.2 + dimOf b.vars v.1)).filter (fun v => 0 < v.2)) :=
+      fun h => hn (mem_keys_mulLeft _ _ _ h)
+    rw [if_neg h, dimOf_mulRight _ _ _ hb hn, dimOf_eq_zero_of_not_mem hn]; omega
+
+
+theorem vdim_append (l1 l2 : Vars) : vdim (l1 ++ l2) = vdim l1 + vdim l2 := by
+  simp [vdim, List.sum_append]
+
+theorem vdim_filter_pos (l : Vars) : vdim (l.filter (fun v => 0 < v.2)) = vdim l := by
+  induction l with
+  | nil => rfl
+  | cons v r ih =>
+    simp only [List.filter_cons]
+    split
+    · simp only [vdim, List.map_cons, List.sum_cons] at ih ⊢; omega
+    · rename_i h
+      have : v.2 = 0 := by simpa using h
+      simp only [vdim, List.map_cons, List.sum_cons] at ih ⊢; omega
+
+def sumDimOf (a b : Vars) : Nat := (a.map fun v => dimOf b v.1).sum
+
+theorem sumDimOf_cons (a r : Vars) (m : String) (d : Nat) (ha : (keys a).Nodup) (hm : m ∉ keys r) :
+    sumDimOf a ((m, d) :: r) = (if m ∈ keys a then d else 0) + sumDimOf a r := by
+  induction a with
+  | nil => simp [sumDimOf]
+  | cons v a' ih =>
+    obtain ⟨k, e⟩ := v
+    simp only [keys_cons, List.nodup_cons] at ha
+    have ih := ih ha.2
+    simp only [sumDimOf, List.map_cons, List.sum_cons, dimOf, keys_cons, List.mem_cons] at ih ⊢
+    by_cases h : m = k
+    · subst h
+      have hz : dimOf r m = 0 := dimOf_eq_zero_of_not_mem hm
+      rw [ih, if_neg ha.1]; simp [hz]
+    · simp only [h, if_false, false_or]; rw [ih]; omega
+
+theorem vdim_map_add (a b : Vars) :
+    vdim (a.map fun v => (v.1, v.2 + dimOf b v.1)) = vdim a + sumDimOf a b := by
+  induction a with
+  | nil => rfl
+  | cons v r ih =>
+    simp only [vdim, sumDimOf, List.map_cons, List.sum_cons] at ih ⊢; omega
+
+theorem vdim_mulRight (a b : Vars) (ha : (keys a).Nodup) (hb : (keys b).Nodup) :
+    sumDimOf a b + vdim (b.filter (fun v => !(keys a).contains v.1 && decide (0 < v.2))) = vdim b := by
+  induction b with
+  | nil =>
+    have : sumDimOf a [] = 0 := by
+      induction a with
+      | nil => rfl
+      | cons v r ih =>
+        simp only [keys_cons, List.nodup_cons] at ha
+        simp only [sumDimOf, List.map_cons, List.sum_cons, dimOf] at ih ⊢
+        simpa using ih ha.2
+    simp [this, vdim]
+  | cons v r ih =>
+    obtain ⟨m, d⟩ := v
+    simp only [keys_cons, List.nodup_cons] at hb
+    have ih := ih hb.2
+    rw [sumDimOf_cons a r m d ha hb.1]
+    simp only [List.filter_cons]
+    by_cases hm : m ∈ keys a
+    · simp only [hm, if_true, List.contains_eq_mem, decide_true, Bool.not_true, Bool.false_and,
+        Bool.false_eq_true, if_false]
+      simp only [List.contains_eq_mem] at ih
+      simp only [vdim, List.map_cons, List.sum_cons] at ih ⊢; omega
+    · by_cases p : 0 < d
+      · simp only [hm, if_false, List.contains_eq_mem, decide_false, Bool.not_false, Bool.true_and,
+          decide_eq_true_eq, p, if_true]
+        simp only [List.contains_eq_mem] at ih
+        simp only [vdim, List.map_cons, List.sum_cons] at ih ⊢; omega
+      · simp only [hm, if_false, List.contains_eq_mem, decide_false, Bool.not_false, Bool.true_and,
+          p, Bool.false_eq_true]
+        simp only [List.contains_eq_mem] at ih
+        simp only [vdim, List.map_cons, List.sum_cons] at ih ⊢; omega
+
+/-- **Space products add dimensions**: `(a * b).dim = a.dim + b.dim`, also when names are shared
+    (their dimensions are merged) and when 0-dimensional entries vanish -/
+theorem mul_dim (a b : Space) (ha : a.Keyed) (hb : b.Keyed) : (a.mul b).dim = a.dim + b.dim := by
+  simp only [Space.dim, Space.mul, vdim_append, vdim_filter_pos, vdim_map_add]
+  have := vdim_mulRight a.vars b.vars ha hb
+  omega
+
+example : (Space.mul ⟨[("x", 2), ("t", 1)]⟩ ⟨[("u", 1), ("x", 1)]⟩) = ⟨[("x", 3), ("t", 1), ("u", 1)]⟩ := by decide
+
+
+theorem dimOf_of_mem {l : Vars} (hl : (keys l).Nodup) {n : String} {d : Nat} (h : (n, d) ∈ l) :
+    dimOf l n = d := by
+  induction l with
+  | nil => cases h
+  | cons v r ih =>
+    obtain ⟨m, e⟩ := v
+    simp only [keys_cons, List.nodup_cons] at hl
+    simp only [dimOf]
+    rcases List.mem_cons.1 h with h | h
+    · cases h; simp
+    · have : m ≠ n := by
+        intro e'; subst e'
+        exact hl.1 (List.mem_map.2 ⟨(m, d), h, rfl⟩)
+      rw [if_neg this]; exact ih hl.2 h
+
+theorem mem_of_dimOf_pos {l : Vars} {n : String} (h : 0 < dimOf l n) : (n, dimOf l n) ∈ l := by
+  induction l with
+  | nil => simp [dimOf] at h
+  | cons v r ih =>
+    obtain ⟨m, e⟩ := v
+    simp only [dimOf] at h ⊢
+    by_cases c : m = n
+    · subst c; simp
+    · rw [if_neg c] at h ⊢; exact List.mem_cons_of_mem _ (ih h)
+
+theorem mem_interVars {big small : Vars} {v : String × Nat} :
+    v ∈ interVars big small ↔ ∃ w ∈ big, v = (w.1, min w.2 (dimOf small w.1)) ∧ 0 < v.2 := by
+  simp only [interVars, List.mem_filter, List.mem_map, decide_eq_true_eq]
+  constructor
+  · rintro ⟨⟨w, hw, rfl⟩, hp⟩; exact ⟨w, hw, rfl, hp⟩
+  · rintro ⟨w, hw, rfl, hp⟩; exact ⟨⟨w, hw, rfl⟩, hp⟩
+
+/-- **the sub-space test is consistent with the dimensions**: for spaces as the library builds them,
+    `small in big` holds exactly when every variable of `small` has at most the dimension it has in
+    `big` (a missing variable has dimension 0) — independent of the order of the variables -/
+theorem has_iff (big small : Space) (hb : big.Keyed) (hs : small.WF) :
+    big.has small = true ↔ ∀ v ∈ small.vars, v.2 ≤ dimOf big.vars v.1 := by
+  simp only [Space.has, Bool.and_eq_true, List.all_eq_true, List.contains_iff_mem]
+  constructor
+  · rintro ⟨_, h2⟩ v hv
+    obtain ⟨w, hw, e, _⟩ := mem_interVars.1 (h2 v hv)
+    have : dimOf big.vars w.1 = w.2 := dimOf_of_mem hb (by simpa using hw)
+    rw [e]; simp only; rw [this]; exact Nat.min_le_left _ _
+  · intro h
+    constructor
+    · intro v hv
+      obtain ⟨w, hw, e, hp⟩ := mem_interVars.1 hv
+      rw [e] at hp ⊢; simp only at hp ⊢
+      have hpos : 0 < dimOf small.vars w.1 := by omega
+      have hm := mem_of_dimOf_pos hpos
+      have hle := h _ hm
+      have : dimOf big.vars w.1 = w.2 := dimOf_of_mem hb (by simpa using hw)
+      simp only at hle
+      rw [this] at hle
+      rw [Nat.min_eq_right hle]; exact hm
+    · intro v hv
+      have hle := h v hv
+      have hpos := hs.2 v hv
+      have hd : dimOf small.vars v.1 = v.2 := dimOf_of_mem hs.1 (by simpa using hv)
+      have hm : (v.1, dimOf big.vars v.1) ∈ big.vars := mem_of_dimOf_pos (by omega)
+      refine mem_interVars.2 ⟨_, hm, ?_, hpos⟩
+      simp only [hd, Nat.min_eq_right hle]
+
+theorem keys_sublist_mulLeft (l b : Vars) :
+    (keys ((l.map fun v => (v.1, v.2 + dimOf b v.1)).filter (fun v => 0 < v.2))).Sublist (keys l) := by
+  have h1 : keys (l.map fun v => (v.1, v.2 + dimOf b v.1)) = keys l := by
+    simp [keys, List.map_map, Function.comp_def]
+  rw [← h1]
+  exact List.Sublist.map _ List.filter_sublist
+
+/-- a product of dicts is a dict again -/
+theorem mul_keyed (a b : Space) (ha : a.Keyed) (hb : b.Keyed) : (a.mul b).Keyed := by
+  simp only [Space.Keyed, Space.names, Space.mul, keys, List.map_append]
+  rw [List.nodup_append]
+  refine ⟨(keys_sublist_mulLeft a.vars b.vars).nodup ha, (List.Sublist.map _ List.filter_sublist).nodup hb, ?_⟩
+  intro x hx y hy e
+  subst e
+  have hx' : x ∈ keys a.vars := mem_keys_mulLeft a.vars b.vars x hx
+  simp only [List.mem_map, List.mem_filter, Bool.and_eq_true, Bool.not_eq_true', decide_eq_true_eq] at hy
+  obtain ⟨v, ⟨_, hv, _⟩, rfl⟩ := hy
+  have : (List.map (fun x => x.fst) a.vars).contains v.1 = true := by simpa [keys] using hx'
+  rw [this] at hv; cases hv
+
+/-- both factors are sub-spaces of the product -/
+theorem has_mul_left (a b : Space) (ha : a.WF) (hb : b.Keyed) : (a.mul b).has a = true := by
+  rw [has_iff _ _ (mul_keyed a b ha.1 hb) ha]
+  intro v hv
+  rw [dimOf_mul a b ha.1 hb, dimOf_of_mem ha.1 (by simpa using hv)]; omega
+
+theorem has_mul_right (a b : Space) (ha : a.Keyed) (hb : b.WF) : (a.mul b).has b = true := by
+  rw [has_iff _ _ (mul_keyed a b ha hb.1) hb]
+  intro v hv
+  rw [dimOf_mul a b ha hb.1, dimOf_of_mem hb.1 (by simpa using hv)]; omega
+
+/-- the names of a product: the left names in order, then the new right names in order -/
+theorem mul_names (a b : Space) (ha : a.WF) (hb : b.WF) :
+    (a.mul b).names = a.names ++ b.names.filter (fun n => !a.names.contains n) := by
+  simp only [Space.names, Space.mul, keys, List.map_append]
+  congr 1
+  · rw [List.filter_eq_self.2]
+    · simp [List.map_map, Function.comp_def]
+    · intro v hv
+      obtain ⟨w, hw, rfl⟩ := List.mem_map.1 hv
+      have := ha.2 w hw
+      simp only [decide_eq_true_eq]; omega
+  · rw [List.filter_map]
+    congr 1
+    apply List.filter_congr
+    intro v hv
+    have := hb.2 v hv
+    simp [this]
+
+/-- **equality is sensitive to the variable order**: the product of two non-empty spaces without
+    common names does not commute -/
+theorem mul_not_comm (a b : Space) (ha : a.WF) (hb : b.WF) (hane : a.vars ≠ []) (hbne : b.vars ≠ [])
+    (hd : ∀ n ∈ a.names, n ∉ b.names) : a.mul b ≠ b.mul a := by
+  intro e
+  have h := congrArg Space.names e
+  rw [mul_names a b ha hb, mul_names b a hb ha] at h
+  obtain ⟨va, ra, ea⟩ := List.exists_cons_of_ne_nil hane
+  obtain ⟨vb, rb, eb⟩ := List.exists_cons_of_ne_nil hbne
+  simp only [Space.names, ea, eb, keys_cons, List.cons_append] at h hd
+  have := (List.cons.inj h).1
+  exact hd va.1 (by simp) (by rw [this]; simp)
+
+example : Space.mul ⟨[("x", 1)]⟩ ⟨[("t", 2)]⟩ ≠ Space.mul ⟨[("t", 2)]⟩ ⟨[("x", 1)]⟩ := by decide
+example : (Space.mul ⟨[("x", 1)]⟩ ⟨[("t", 2)]⟩).has ⟨[("t", 1)]⟩ = true := by decide
+example : (Space.mul ⟨[("x", 1)]⟩ ⟨[("t", 2)]⟩).has ⟨[("t", 3)]⟩ = false := by decide
+
+
+variable {α : Type}
+
+/-! ## Points: rows -/
+
+theorem gather_map {β γ : Type} (f : β → γ) (d : List β) (is : List Nat) :
+    gather (d.map f) is = (gather d is).map (List.map f) := by
+  induction is with
+  | nil => rfl
+  | cons i r ih =>
+    simp only [gather, List.getElem?_map, ih]
+    cases d[i]? <;> cases gather d r <;> rfl
+
+theorem gather_length {β : Type} {d : List β} {is : List Nat} {out : List β}
+    (h : gather d is = some out) : out.length = is.length := by
+  induction is generalizing out with
+  | nil => simp only [gather, Option.some.injEq] at h; subst h; rfl
+  | cons i r ih =>
+    simp only [gather] at h
+    split at h
+    · rename_i a r' hd hr
+      simp only [Option.some.injEq] at h; subst h
+      simp [ih hr]
+    · cases h
+
+/-- every element of a gather is the element at the corresponding index -/
+theorem gather_getElem? {β : Type} {d : List β} {is : List Nat} {out : List β}
+    (h : gather d is = some out) (k : Nat) (hk : k < is.length) :
+    out[k]? = d[is[k]]? ∧ is[k] < d.length := by
+  induction is generalizing out k with
+  | nil => cases hk
+  | cons i r ih =>
+    simp only [gather] at h
+    split at h
+    · rename_i a r' hd hr
+      simp only [Option.some.injEq] at h; subst h
+      cases k with
+      | zero =>
+        simp only [List.getElem?_cons_zero, List.getElem_cons_zero]
+        exact ⟨hd.symm, (List.getElem?_eq_some_iff.1 hd).1⟩
+      | succ k =>
+        simp only [List.getElem?_cons_succ, List.getElem_cons_succ]
+        exact ih hr k (by simpa using hk)
+    · cases h
+
+/-- **row integrity of indexing** (the code after the two index fixes): whatever index expression is
+    accepted, the result consists of whole rows of `p`, taken at flat positions that depend on the
+    batch shape and the index only, each restricted to the columns of the key (all columns without a
+    key), in the space of the key -/
+theorem getitem_rows (p q : Points α) (ix : Index) (h : p.getitem ix = .ok q) :
+    ∃ s rows, p.select ix = .ok s ∧ gather p.data (flatIdx s.sels) = some rows ∧
+      rows.mapM (pickCols s.cols) = some q.data ∧ q.space.vars = s.space ∧
+      q.shape = (if keptShape s.sels = [] then [1] else keptShape s.sels) := by
+  simp only [Points.getitem, bind, Except.bind] at h
+  cases hs : p.select ix with
+  | error e => simp [hs] at h
+  | ok s =>
+    simp only [hs] at h
+    cases hg : gather p.data (flatIdx s.sels) with
+    | none => simp [hg] at h
+    | some rows =>
+      simp only [hg] at h
+      cases hm : rows.mapM (pickCols s.cols) with
+      | none => simp [hm] at h
+      | some rows' =>
+        simp only [hm, pure, Except.pure, Except.ok.injEq] at h
+        subst h
+        exact ⟨s, rows, rfl, hg, hm, rfl, rfl⟩
+
+/-- **slicing commutes with selection**: gathering rows and then restricting every row to a column
+    set is the same as restricting first and gathering then (for any cell-wise row function `f`) -/
+theorem rows_select_comm (f : List α → List α) (d : List (List α)) (is : List Nat) :
+    (gather d is).map (List.map f) = gather (d.map f) is := (gather_map f d is).symm
+
+/-! ## negative results about the code before the fixes -/
+
+/-- **before fix B the property was false**: with rows `[0,1,2]` and the key `('t','x')` on a table with
+    variables x (1 column) and t (2 columns) the old code returned ONE row made of cells of three
+    different rows; it is not the selection of any row of the table -/
+theorem paired_index_old_mixes_rows :
+    let p : Points Nat := ⟨⟨[("x", 1), ("t", 2)]⟩, [3], [[0, 1, 2], [3, 4, 5], [6, 7, 8]]⟩
+    p.getitemPairedOld [0, 1, 2] [1, 2, 0] = some [[1, 5, 6]] ∧
+    (∀ r ∈ p.data, gather r [1, 2, 0] ≠ some [1, 5, 6]) ∧
+    (p.getitem (.tup [.list [0, 1, 2], .names ["t", "x"]])).toOption.map (·.data)
+      = some [[1, 2, 0], [4, 5, 3], [7, 8, 6]] := by
+  decide
+
+/-- **before fix A the property was false**: `points[0, 1]` on batch shape (2, 3) was read as the
+    index list `[0, 1]` on the first axis and returned all six rows; the point (0, 1) is row 1 -/
+theorem int_tuple_old_wrong_rows :
+    let p : Points Nat := ⟨⟨[("x", 1)]⟩, [2, 3], [[0], [1], [2], [3], [4], [5]]⟩
+    (p.getitemIntTupleOld [0, 1]).toOption.map (fun q => (q.shape, q.data))
+      = some ([2, 3], [[0], [1], [2], [3], [4], [5]]) ∧
+    (p.getitem (.tup [.int 0, .int 1])).toOption.map (fun q => (q.shape, q.data)) = some ([1], [[1]]) := by
+  decide
+
+
+/-! ## Points: columns by name -/
+
+theorem off_add_dim_le (vs : Vars) (n : String) (h : n ∈ keys vs) :
+    offOf vs n + dimOf vs n ≤ vdim vs := by
+  induction vs with
+  | nil => cases h
+  | cons v r ih =>
+    obtain ⟨m, d⟩ := v
+    simp only [offOf, dimOf, vdim, List.map_cons, List.sum_cons]
+    by_cases e : m = n
+    · simp [e]
+    · simp only [e, if_false]
+      have : n ∈ keys r := by
+        rcases List.mem_cons.1 h with h | h
+        · exact absurd h.symm e
+        · exact h
+      have := ih this
+      simp only [vdim] at this; omega
+
+theorem piece_length (vs : Vars) (n : String) (r : List α) (h : n ∈ keys vs) (hr : r.length = vdim vs) :
+    (piece vs n r).length = dimOf vs n := by
+  have := off_add_dim_le vs n h
+  simp only [piece, List.length_take, List.length_drop]; omega
+
+theorem gather_shift {β : Type} (d : List β) (o k : Nat) (h : o + k ≤ d.length) :
+    gather d ((List.range k).map (· + o)) = some ((d.drop o).take k) := by
+  induction k generalizing o d with
+  | zero => simp [gather]
+  | succ k ih =>
+    rw [List.range_succ_eq_map]
+    simp only [List.map_cons, List.map_map, gather, Nat.zero_add]
+    have ho : o < d.length := by omega
+    have h1 : gather d (List.map ((fun x => x + o) ∘ Nat.succ) (List.range k))
+        = some ((d.drop (o + 1)).take k) := by
+      have := ih d (o + 1) (by omega)
+      rw [← this]; congr 1
+      apply List.map_congr_left; intro x _; simp only [Function.comp]; omega
+    rw [h1, List.getElem?_eq_getElem ho]
+    simp only
+    congr 1
+    rw [List.drop_eq_getElem_cons ho, List.take_succ_cons]
+
+/-- the column numbers `rng[slc[v]]` pick exactly the cells `r[slc[v]]` of variable `v` -/
+theorem gather_colsOf (vs : Vars) (n : String) (r : List α) (h : n ∈ keys vs) (hr : r.length = vdim vs) :
+    gather r (colsOf vs n) = some (piece vs n r) := by
+  have := off_add_dim_le vs n h
+  exact gather_shift r (offOf vs n) (dimOf vs n) (by omega)
+
+theorem gather_append {β : Type} (d : List β) (a b : List Nat) (x y : List β)
+    (ha : gather d a = some x) (hb : gather d b = some y) : gather d (a ++ b) = some (x ++ y) := by
+  induction a generalizing x with
+  | nil => simp only [gather, Option.some.injEq] at ha; subst ha; simpa using hb
+  | cons i r ih =>
+    simp only [gather] at ha
+    split at ha
+    · rename_i a' r' hd hr
+      simp only [Option.some.injEq] at ha; subst ha
+      simp only [List.cons_append, gather, hd, ih r' hr]
+    · cases ha
+
+theorem gather_flatMap_colsOf (vs : Vars) (ns : List String) (r : List α)
+    (h : ∀ n ∈ ns, n ∈ keys vs) (hr : r.length = vdim vs) :
+    gather r (ns.flatMap (colsOf vs)) = some (ns.flatMap fun n => piece vs n r) := by
+  induction ns with
+  | nil => rfl
+  | cons n rest ih =>
+    simp only [List.flatMap_cons]
+    exact gather_append r _ _ _ _ (gather_colsOf vs n r (h n (by simp)) hr)
+      (ih fun m hm => h m (List.mem_cons_of_mem _ hm))
+
+theorem dedup_mem {ns : List String} {n : String} : n ∈ dedup ns ↔ n ∈ ns := by
+  induction ns with
+  | nil => simp [dedup]
+  | cons m r ih =>
+    simp only [dedup, List.mem_cons, List.mem_filter, ih, decide_eq_true_eq]
+    constructor
+    · rintro (h | ⟨h, _⟩)
+      · exact Or.inl h
+      · exact Or.inr h
+    · intro h
+      by_cases e : n = m
+      · exact Or.inl e
+      · rcases h with h | h
+        · exact absurd h e
+        · exact Or.inr ⟨h, e⟩
+
+theorem dedup_nodup (ns : List String) : (dedup ns).Nodup := by
+  induction ns with
+  | nil => simp [dedup]
+  | cons m r ih =>
+    simp only [dedup]
+    exact List.nodup_cons.2 ⟨by simp [List.mem_filter], ih.filter _⟩
+
+theorem dedup_of_nodup {ns : List String} (h : ns.Nodup) : dedup ns = ns := by
+  induction ns with
+  | nil => rfl
+  | cons m r ih =>
+    simp only [List.nodup_cons] at h
+    simp only [dedup, ih h.2]
+    congr 1
+    rw [List.filter_eq_self]
+    intro a ha; simp only [decide_eq_true_eq]; intro e; subst e; exact h.1 ha
+
+/-- **selecting variables by name**: for names of the space, the key `(n₁, n₂, …)` yields the space
+    `n₁, n₂, …` (requested order, repeated names once, dimensions as in the space) and column
+    numbers that pick, from every row, exactly the cells of `n₁`, then those of `n₂`, … -/
+theorem colKey_names (vs : Vars) (ns : List String) (h : ∀ n ∈ ns, n ∈ keys vs) :
+    ∃ cols, colKey vs (.names ns) = .ok ((dedup ns).map (fun n => (n, dimOf vs n)), cols) ∧
+      ∀ r : List α, r.length = vdim vs →
+        gather r cols = some ((dedup ns).flatMap fun n => piece vs n r) := by
+  refine ⟨((dedup ns).map fun n => (n, dimOf vs n)).flatMap (fun w => colsOf vs w.1), ?_, ?_⟩
+  · have hk : ((Space.sub ⟨vs⟩ ns).vars.any fun w => !(keys vs).contains w.1) = false := by
+      simp only [Space.sub, List.any_eq_false, List.mem_map, Bool.not_eq_true, Bool.not_eq_false',
+        List.contains_eq_mem, decide_eq_true_eq]
+      rintro w ⟨n, hn, rfl⟩
+      exact h n (dedup_mem.1 hn)
+    simp only [colKey, hk]
+    rfl
+  · intro r hr
+    rw [List.flatMap_map]
+    exact gather_flatMap_colsOf vs (dedup ns) r (fun n hn => h n (dedup_mem.1 hn)) hr
+
+theorem colKey_name (vs : Vars) (n : String) (h : n ∈ keys vs) :
+    colKey vs (.name n) = .ok ([(n, dimOf vs n)], colsOf vs n) := by
+  simp only [colKey]
+  rw [if_pos (by simpa using h)]
+  rfl
+
+theorem piece_cons_eq (m : String) (d : Nat) (vs' : Vars) (x y : List α) (hx : x.length = d) :
+    piece ((m, d) :: vs') m (x ++ y) = x := by
+  simp only [piece, offOf, dimOf, if_true, List.drop_zero]
+  rw [List.take_append_of_le_length (by omega), List.take_of_length_le (by omega)]
+
+theorem piece_cons_ne (m n : String) (d : Nat) (vs' : Vars) (x y : List α) (hx : x.length = d)
+    (e : m ≠ n) : piece ((m, d) :: vs') n (x ++ y) = piece vs' n y := by
+  simp only [piece, offOf, dimOf, e, if_false]
+  rw [← List.drop_drop, ← hx, List.drop_left]
+
+/-- in the selected row the cells stand under their names: reading variable `n` (by the offsets of
+    the NEW space) from the selected row gives the cells of `n` in the original row -/
+theorem piece_select (vs : Vars) (ns : List String) (r : List α) (n : String)
+    (hns : ns.Nodup) (h : ∀ m ∈ ns, m ∈ keys vs) (hr : r.length = vdim vs) (hn : n ∈ ns) :
+    piece (ns.map fun m => (m, dimOf vs m)) n (ns.flatMap fun m => piece vs m r) = piece vs n r := by
+  induction ns with
+  | nil => cases hn
+  | cons m rest ih =>
+    simp only [List.nodup_cons] at hns
+    simp only [List.map_cons, List.flatMap_cons]
+    have hlen : (piece vs m r).length = dimOf vs m := piece_length vs m r (h m (by simp)) hr
+    by_cases e : m = n
+    · subst e; exact piece_cons_eq _ _ _ _ _ hlen
+    · have hn' : n ∈ rest := by
+        rcases List.mem_cons.1 hn with h' | h'
+        · exact absurd h'.symm e
+        · exact h'
+      rw [piece_cons_ne _ _ _ _ _ _ hlen e]
+      exact ih hns.2 (fun k hk => h k (List.mem_cons_of_mem _ hk)) hn'
+
+example : (Points.getitem (⟨⟨[("x", 1), ("t", 2)]⟩, [2], [[0, 1, 2], [3, 4, 5]]⟩ : Points Nat)
+    (.tup [.slice .none .none none, .names ["t", "x"]])).toOption
+    = some ⟨⟨[("t", 2), ("x", 1)]⟩, [2], [[1, 2, 0], [4, 5, 3]]⟩ := by decide
+
+
+/-! ## round trip coordinates ↔ Points -/
+
+theorem hcat_map {γ : Type} (cs : List γ) (g : γ → List α → List α) (data : List (List α)) :
+    hcat (cs.map fun c => data.map (g c)) data.length
+      = data.map fun r => (cs.map fun c => g c r).flatten := by
+  induction cs with
+  | nil => simp [hcat, List.map_const']
+  | cons c rest ih =>
+    simp only [List.map_cons, hcat, ih, List.flatten_cons]
+    rw [List.zipWith_map, List.zipWith_self]
+
+/-- the pieces of a row, in the order of the space, concatenate to the row -/
+theorem pieces_flatten (vs : Vars) (hk : (keys vs).Nodup) (r : List α) (hr : r.length = vdim vs) :
+    (vs.map fun v => piece vs v.1 r).flatten = r := by
+  induction vs generalizing r with
+  | nil =>
+    simp only [vdim, List.map_nil, List.sum_nil] at hr
+    simp [List.length_eq_zero_iff.1 hr]
+  | cons v rest ih =>
+    obtain ⟨m, d⟩ := v
+    simp only [keys_cons, List.nodup_cons] at hk
+    simp only [vdim, List.map_cons, List.sum_cons] at hr
+    simp only [List.map_cons, List.flatten_cons]
+    have h1 : piece ((m, d) :: rest) m r = r.take d := by
+      simp [piece, offOf, dimOf]
+    have h2 : (rest.map fun v => piece ((m, d) :: rest) v.1 r) = rest.map fun v => piece rest v.1 (r.drop d) := by
+      apply List.map_congr_left
+      intro v hv
+      have e : m ≠ v.1 := fun e => hk.1 (e ▸ List.mem_map.2 ⟨v, hv, rfl⟩)
+      simp only [piece, offOf, dimOf, e, if_false, List.drop_drop]
+    rw [h1, h2, ih hk.2 (r.drop d) (by simp [vdim, List.length_drop]; omega)]
+    exact List.take_append_drop d r
+
+/-- **round trip**: reading the coordinates of a Points object and building Points from them gives
+    the object back (space with its order, batch shape, every cell) -/
+theorem from_coordinates_coords (p : Points α) (h : p.WF) (hk : p.space.Keyed) (hne : p.space.vars ≠ []) :
+    Points.fromCoordinates p.coords = .ok p := by
+  obtain ⟨v, rest, e⟩ := List.exists_cons_of_ne_nil hne
+  obtain ⟨hs, hl, hrow⟩ := h
+  have hany : (p.coords.any fun d => decide (d.shape ≠ p.shape)) = false := by
+    simp [Points.coords]
+  simp only [Points.fromCoordinates]
+  have hc : p.coords = ⟨v.1, p.shape, v.2, p.data.map (piece p.space.vars v.1)⟩ ::
+      (rest.map fun w => ⟨w.1, p.shape, w.2, p.data.map (piece p.space.vars w.1)⟩) := by
+    simp [Points.coords, e]
+  rw [hc] at hany ⊢
+  simp only [hany, hs, if_false, Bool.false_eq_true]
+  rw [← hc]
+  have hsp : (p.coords.map fun d => (d.name, d.width)) = p.space.vars := by
+    simp [Points.coords, List.map_map, Function.comp_def]
+  have hdata : hcat (p.coords.map (·.rows)) (prodL p.shape) = p.data := by
+    have : p.coords.map (·.rows) = p.space.vars.map fun w => p.data.map (piece p.space.vars w.1) := by
+      simp [Points.coords, List.map_map, Function.comp_def]
+    rw [this, ← hl, hcat_map p.space.vars (fun w => piece p.space.vars w.1) p.data]
+    conv => rhs; rw [← List.map_id p.data]
+    apply List.map_congr_left
+    intro r hr
+    exact pieces_flatten p.space.vars hk r (hrow r hr)
+  rw [hsp, hdata]
+  rfl
+
+example : Points.fromCoordinates
+    (Points.coords (⟨⟨[("x", 1), ("t", 2)]⟩, [2], [[0, 1, 2], [3, 4, 5]]⟩ : Points Nat))
+    = .ok ⟨⟨[("x", 1), ("t", 2)]⟩, [2], [[0, 1, 2], [3, 4, 5]]⟩ :=
+  from_coordinates_coords _ ⟨by decide, by decide, by decide⟩ (by simp [Space.Keyed, Space.names, keys]) (by decide)
+
+/-! ## join -/
+
+theorem piece_append_left (v1 v2 : Vars) (n : String) (x y : List α) (hn : n ∈ keys v1)
+    (hx : x.length = vdim v1) : piece (v1 ++ v2) n (x ++ y) = piece v1 n x := by
+  induction v1 generalizing x with
+  | nil => cases hn
+  | cons v rest ih =>
+    obtain ⟨m, d⟩ := v
+    simp only [vdim, List.map_cons, List.sum_cons] at hx
+    have hxs : x = x.take d ++ x.drop d := (List.take_append_drop d x).symm
+    have hl : (x.take d).length = d := by simp [List.length_take]; omega
+    by_cases e : m = n
+    · subst e
+      simp only [piece, List.cons_append, offOf, dimOf, if_true, List.drop_zero]
+      rw [List.take_append_of_le_length (by omega)]
+    · have hn' : n ∈ keys rest := by
+        rcases List.mem_cons.1 hn with h' | h'
+        · exact absurd h'.symm e
+        · exact h'
+      rw [List.cons_append, hxs, List.append_assoc, piece_cons_ne _ _ _ _ _ _ hl e,
+        piece_cons_ne _ _ _ _ _ _ hl e]
+      exact ih (x.drop d) hn' (by simp [vdim, List.length_drop]; omega)
+
+theorem piece_append_right (v1 v2 : Vars) (n : String) (x y : List α) (hn : n ∉ keys v1)
+    (hx : x.length = vdim v1) : piece (v1 ++ v2) n (x ++ y) = piece v2 n y := by
+  induction v1 generalizing x with
+  | nil =>
+    simp only [vdim, List.map_nil, List.sum_nil] at hx
+    simp [List.length_eq_zero_iff.1 hx]
+  | cons v rest ih =>
+    obtain ⟨m, d⟩ := v
+    simp only [vdim, List.map_cons, List.sum_cons] at hx
+    simp only [keys_cons, List.mem_cons, not_or] at hn
+    have hxs : x = x.take d ++ x.drop d := (List.take_append_drop d x).symm
+    have hl : (x.take d).length = d := by simp [List.length_take]; omega
+    rw [List.cons_append, hxs, List.append_assoc, piece_cons_ne _ _ _ _ _ _ hl (fun e => hn.1 e.symm)]
+    exact ih (x.drop d) hn.2 (by simp [vdim, List.length_drop]; omega)
+
+/-- the product of library-built spaces without common names is the concatenation of their items -/
+theorem mul_disjoint (a b : Space) (ha : a.WF) (hb : b.WF) (hd : disjointKeys a b = true) :
+    (a.mul b).vars = a.vars ++ b.vars := by
+  simp only [Space.mul]
+  congr 1
+  · have : (a.vars.map fun v => (v.1, v.2 + dimOf b.vars v.1)) = a.vars := by
+      conv => rhs; rw [← List.map_id a.vars]
+      apply List.map_congr_left
+      intro v hv
+      simp only [disjointKeys, List.all_eq_true, Bool.not_eq_true', List.contains_eq_mem,
+        decide_eq_false_iff_not] at hd
+      have : v.1 ∉ keys b.vars := hd v.1 (List.mem_map.2 ⟨v, hv, rfl⟩)
+      simp [dimOf_eq_zero_of_not_mem this]
+    rw [this, List.filter_eq_self]
+    intro v hv; simpa using ha.2 v hv
+  · rw [List.filter_eq_self]
+    intro v hv
+    simp only [disjointKeys, List.all_eq_true, Bool.not_eq_true', List.contains_eq_mem,
+      decide_eq_false_iff_not] at hd
+    have h1 : v.1 ∉ keys a.vars := fun h => hd v.1 h (List.mem_map.2 ⟨v, hv, rfl⟩)
+    simp [h1, hb.2 v hv]
+
+/-- **join keeps rows, columns and names together**: for non-empty tables with the same batch shape
+    and no common names, `p.join(q)` has the items of `p` then those of `q`, the batch shape of
+    both, and row `i` is row `i` of `p` followed by row `i` of `q`; read by name, every variable of
+    the joined row holds the cells it had in `p` resp. `q` -/
+theorem join_spec (p q : Points α) (hp : p.WF) (hps : p.space.WF) (hqs : q.space.WF)
+    (hpe : p.isempty = false) (hqe : q.isempty = false)
+    (hd : disjointKeys p.space q.space = true) (hsh : p.shape = q.shape) :
+    ∃ j, p.join q = .ok j ∧ j.space.vars = p.space.vars ++ q.space.vars ∧ j.shape = p.shape ∧
+      j.data = List.zipWith (· ++ ·) p.data q.data ∧
+      ∀ x ∈ p.data, ∀ y ∈ q.data,
+        (∀ n ∈ p.space.names, piece j.space.vars n (x ++ y) = piece p.space.vars n x) ∧
+        (∀ n ∈ q.space.names, piece j.space.vars n (x ++ y) = piece q.space.vars n y) := by
+  refine ⟨⟨p.space.mul q.space, p.shape, List.zipWith (· ++ ·) p.data q.data⟩, ?_,
+    mul_disjoint _ _ hps hqs hd, rfl, rfl, ?_⟩
+  · simp [Points.join, hpe, hqe, hd, hsh]; rfl
+  · intro x hx y hy
+    simp only [mul_disjoint _ _ hps hqs hd]
+    constructor
+    · intro n hn
+      exact piece_append_left _ _ n x y hn (hp.2.2 x hx)
+    · intro n hn
+      have : n ∉ keys p.space.vars := by
+        intro h
+        simp only [disjointKeys, List.all_eq_true, Bool.not_eq_true', List.contains_eq_mem,
+          decide_eq_false_iff_not] at hd
+        exact hd n h hn
+      exact piece_append_right _ _ n x y this (hp.2.2 x hx)
+
+example : (Points.join (⟨⟨[("x", 1)]⟩, [2], [[0], [1]]⟩ : Points Nat) ⟨⟨[("t", 2)]⟩, [2], [[5, 6], [7, 8]]⟩).toOption
+    = some ⟨⟨[("x", 1), ("t", 2)]⟩, [2], [[0, 5, 6], [1, 7, 8]]⟩ := by decide
+
+/-- **join is associative** on the rows: `(p ⋈ q) ⋈ r` and `p ⋈ (q ⋈ r)` have the same cells -/
+theorem join_rows_assoc (a b c : List (List α)) :
+    List.zipWith (· ++ ·) (List.zipWith (· ++ ·) a b) c = List.zipWith (· ++ ·) a (List.zipWith (· ++ ·) b c) := by
+  induction a generalizing b c with
+  | nil => simp
+  | cons x xs ih =>
+    cases b with
+    | nil => simp
+    | cons y ys =>
+      cases c with
+      | nil => simp
+      | cons z zs => simp [ih, List.append_assoc]
+
+
+/-! ## assignment -/
+
+theorem writeCols_length (cs : List Nat) (r xs : List α) : (writeCols cs r xs).length = r.length := by
+  induction cs generalizing r xs with
+  | nil => simp [writeCols]
+  | cons c cs ih =>
+    cases xs with
+    | nil => simp [writeCols]
+    | cons x xs => simp [writeCols, ih]
+
+/-- cells outside the addressed columns keep their value -/
+theorem writeCols_get_not_mem (cs : List Nat) (r xs : List α) (c : Nat) (h : c ∉ cs) :
+    (writeCols cs r xs)[c]? = r[c]? := by
+  induction cs generalizing r xs with
+  | nil => simp [writeCols]
+  | cons c' cs ih =>
+    simp only [List.mem_cons, not_or] at h
+    cases xs with
+    | nil => simp [writeCols]
+    | cons x xs =>
+      simp only [writeCols]
+      rw [ih _ _ h.2, List.getElem?_set_ne (fun e => h.1 e.symm)]
+
+/-- the addressed columns hold, in the order of the key, the assigned cells -/
+theorem writeCols_gather (cs : List Nat) (r xs : List α) (hn : cs.Nodup) (hb : ∀ c ∈ cs, c < r.length)
+    (hl : xs.length = cs.length) : gather (writeCols cs r xs) cs = some xs := by
+  induction cs generalizing r xs with
+  | nil =>
+    have : xs = [] := List.length_eq_zero_iff.1 (by simpa using hl)
+    subst this; rfl
+  | cons c cs ih =>
+    cases xs with
+    | nil => simp at hl
+    | cons x xs =>
+      simp only [List.nodup_cons] at hn
+      simp only [writeCols, gather]
+      have h1 : (writeCols cs (r.set c x) xs)[c]? = some x := by
+        rw [writeCols_get_not_mem _ _ _ _ hn.1]
+        have : c < r.length := hb c (by simp)
+        simp [List.getElem?_set_self this]
+      have h2 := ih (r.set c x) xs hn.2 (fun c' hc' => by simpa using hb c' (List.mem_cons_of_mem _ hc'))
+        (by simpa using hl)
+      simp [h1, h2]
+
+/-- rows that are not addressed keep all their cells -/
+theorem writeRows_get_not_mem (cols : Option (List Nat)) (is : List Nat) (xs d : List (List α)) (i : Nat)
+    (h : i ∉ is) : (writeRows cols is xs d)[i]? = d[i]? := by
+  induction is generalizing xs d with
+  | nil => simp [writeRows]
+  | cons j is ih =>
+    simp only [List.mem_cons, not_or] at h
+    cases xs with
+    | nil => simp [writeRows]
+    | cons x xs =>
+      simp only [writeRows]
+      rw [ih _ _ h.2, List.getElem?_modify]
+      have hji : ¬ j = i := fun e => h.1 e.symm
+      simp [hji]
+
+/-- an addressed row is the old row with the assigned cells written to the addressed columns -/
+theorem writeRows_get_mem (cols : Option (List Nat)) (is : List Nat) (xs d : List (List α))
+    (hn : is.Nodup) (hl : xs.length = is.length) (k : Nat) (hk : k < is.length) :
+    (writeRows cols is xs d)[is[k]]? = (d[is[k]]?).bind fun r => (xs[k]?).map fun x => writeRow cols r x := by
+  induction is generalizing xs d k with
+  | nil => cases hk
+  | cons j is ih =>
+    cases xs with
+    | nil => simp at hl
+    | cons x xs =>
+      simp only [List.nodup_cons] at hn
+      simp only [writeRows]
+      cases k with
+      | zero =>
+        simp only [List.getElem_cons_zero, List.getElem?_cons_zero]
+        rw [writeRows_get_not_mem _ _ _ _ _ hn.1, List.getElem?_modify]
+        cases d[j]? <;> simp
+      | succ k =>
+        simp only [List.getElem_cons_succ, List.getElem?_cons_succ]
+        have hk' : k < is.length := by simpa using hk
+        rw [ih _ _ hn.2 (by simpa using hl) k hk', List.getElem?_modify]
+        have : j ≠ is[k] := fun e => hn.1 (e ▸ List.getElem_mem hk')
+        simp [this]
+
+/-- **assignment changes only the addressed cells**: `points[ix] = rhs` keeps space and shape; the
+    new rows are the old rows with, for the k-th addressed row, the k-th (broadcast) row of `rhs`
+    written to the columns of the key; every other row is untouched -/
+theorem setitem_frame (p rhs p' : Points α) (ix : Index) (h : p.setitem ix rhs = .ok p') :
+    p'.space = p.space ∧ p'.shape = p.shape ∧
+    ∃ s rows, p.select ix = .ok s ∧ s.space = rhs.space.vars ∧ (flatIdx s.sels).Nodup ∧
+      bcastRows (keptShape s.sels) (flatIdx s.sels).length rhs.shape rhs.data = .ok rows ∧
+      p'.data = writeRows s.cols (flatIdx s.sels) rows p.data ∧
+      ∀ i, i ∉ flatIdx s.sels → p'.data[i]? = p.data[i]? := by
+  simp only [Points.setitem, bind, Except.bind] at h
+  cases hs : p.select ix with
+  | error e => simp [hs] at h
+  | ok s =>
+    simp only [hs] at h
+    by_cases hsp : s.space = rhs.space.vars
+    · simp only [hsp, ne_eq, not_true_eq_false, if_false] at h
+      cases hb : bcastRows (keptShape s.sels) (flatIdx s.sels).length rhs.shape rhs.data with
+      | error e => simp [hb] at h
+      | ok rows =>
+        simp only [hb, pure, Except.pure] at h
+        by_cases hnd : (flatIdx s.sels).Nodup
+        · simp only [hnd, not_true_eq_false, if_false, Except.ok.injEq] at h
+          subst h
+          exact ⟨rfl, rfl, s, rows, rfl, hsp, hnd, hb, rfl,
+            fun i hi => writeRows_get_not_mem _ _ _ _ i hi⟩
+        · simp [hnd] at h
+    · simp [hsp] at h
+
+example : (Points.setitem (⟨⟨[("x", 1), ("t", 2)]⟩, [3], [[0, 1, 2], [3, 4, 5], [6, 7, 8]]⟩ : Points Nat)
+    (.tup [.list [2, 0], .names ["t"]]) ⟨⟨[("t", 2)]⟩, [2], [[10, 11], [20, 21]]⟩).toOption
+    = some ⟨⟨[("x", 1), ("t", 2)]⟩, [3], [[0, 20, 21], [3, 4, 5], [6, 10, 11]]⟩ := by decide
+
+/-! ## row concatenation, unsqueeze, arithmetic, equality -/
+
+/-- **`p | q`**: same space, the rows of `p` followed by the rows of `q`, first batch axis added up -/
+theorem cat_spec (p q : Points α) (a b : Nat) (rest : List Nat) (hp : p.shape = a :: rest)
+    (hq : q.shape = b :: rest) (hs : q.space = p.space) (hpe : p.isempty = false) (hqe : q.isempty = false) :
+    p.cat q = .ok ⟨p.space, (a + b) :: rest, p.data ++ q.data⟩ := by
+  simp [Points.cat, hpe, hqe, hs, hp, hq]; rfl
+
+/-- **`unsqueeze`** inserts a batch axis of length 1 and leaves space and rows alone -/
+theorem unsqueeze_spec (p q : Points α) (d : Int) (h : p.unsqueeze d = .ok q) :
+    q.space = p.space ∧ q.data = p.data ∧ prodL q.shape = prodL p.shape ∧
+      q.shape.length = p.shape.length + 1 := by
+  simp only [Points.unsqueeze] at h
+  split at h
+  · cases h
+  · split at h
+    · cases h
+    · simp only [pure, Except.pure, Except.ok.injEq] at h
+      subst h
+      refine ⟨rfl, rfl, ?_, ?_⟩
+      · generalize (if d < 0 then (d + ↑p.shape.length + 1).toNat else d.toNat) = pos
+        have key : ∀ (l : List Nat) (k : Nat), prodL (l.take k ++ 1 :: l.drop k) = prodL l := by
+          intro l
+          induction l with
+          | nil => intro k; simp [prodL]
+          | cons a l ih =>
+            intro k
+            cases k with
+            | zero => simp [prodL]
+            | succ k => simp [prodL, ih k]
+        exact key _ _
+      · simp only [List.length_append, List.length_take, List.length_cons, List.length_drop]
+        omega
+
+/-- **arithmetic is cell-wise and keeps the names**: same space and shape, and under every name the
+    cells are `f` of the cells under that name -/
+theorem arith_spec (f : α → α → α) (p q r : Points α) (h : p.arith f q = .ok r) :
+    r.space = p.space ∧ r.shape = p.shape ∧ q.space = p.space ∧
+      r.data = List.zipWith (List.zipWith f) p.data q.data := by
+  simp only [Points.arith, bind, Except.bind] at h
+  by_cases hs : q.space = p.space
+  · simp only [hs, ne_eq, not_true_eq_false, if_false] at h
+    cases hb : sameOrBcast p.shape q.shape with
+    | error e => simp [hb] at h
+    | ok u =>
+      simp only [hb, pure, Except.pure, Except.ok.injEq] at h
+      subst h; exact ⟨rfl, rfl, hs, rfl⟩
+  · simp [hs] at h
+
+theorem piece_zipWith (f : α → α → α) (vs : Vars) (n : String) (x y : List α) :
+    piece vs n (List.zipWith f x y) = List.zipWith f (piece vs n x) (piece vs n y) := by
+  simp [piece, List.take_zipWith, List.drop_zipWith]
+
+/-- **equality of Points is sensitive to the variable order** (and to shape and every cell) -/
+theorem beq_iff [DecidableEq α] (p q : Points α) : p.beq q = true ↔ p = q := by
+  cases p; cases q
+  rename_i s1 sh1 d1 s2 sh2 d2
+  cases s1; cases s2
+  simp [Points.beq, and_assoc]
+
+example : Points.beq (⟨⟨[("x", 1), ("t", 1)]⟩, [1], [[5, 5]]⟩ : Points Nat) ⟨⟨[("t", 1), ("x", 1)]⟩, [1], [[5, 5]]⟩ = false := by
+  decide
+
+
+/-! ## full-strength statements that are NOT proved yet (listed in obligations/C12.json as
+    `unproved_statements`; each is exercised on every run by the correspondence and its oracle) -/
+
+/-- the rows of `d` whose mask entry is true, in order -/
+def maskRows {β : Type} : List β → List Bool → List β
+  | a :: as, true :: bs => a :: maskRows as bs
+  | _ :: as, false :: bs => maskRows as bs
+  | _, _ => []
+
+/-- boolean masking (one batch axis): exactly the rows with a true entry, in order, space unchanged -/
+def C12_full_mask_spec : Prop :=
+  ∀ (α : Type) (p : Points α) (bs : List Bool), p.WF → p.shape = [bs.length] →
+    p.getitem (.one (.mask bs)) = .ok ⟨p.space, [(maskRows p.data bs).length], maskRows p.data bs⟩
+
+example : (Points.getitem (⟨⟨[("x", 1)]⟩, [3], [[0], [1], [2]]⟩ : Points Nat) (.one (.mask [true, false, true]))).toOption
+    = some ⟨⟨[("x", 1)]⟩, [(maskRows [[0], [1], [2]] [true, false, true]).length], maskRows [[0], [1], [2]] [true, false, true]⟩ := by
+  decide
+
+/-- `p.repeat(m)`: `m` copies of all rows, block after block, space unchanged -/
+def C12_full_repeat_spec : Prop :=
+  ∀ (α : Type) (p : Points α) (m : Nat) (q : Points α), p.WF → p.repeat [(m : Int)] = .ok q →
+    q.space = p.space ∧ q.data = (List.replicate m p.data).flatten
+
+example : (Points.repeat (⟨⟨[("x", 1)]⟩, [2, 1], [[0], [1]]⟩ : Points Nat) [2]).toOption.map (·.data)
+    = some (List.replicate 2 [[0], [1]]).flatten := by decide
+
+/-- `p[...]` is `p` -/
+def C12_full_getitem_all : Prop :=
+  ∀ (α : Type) (p : Points α), p.WF → p.getitem (.one .ell) = .ok p
+
+example : (Points.getitem (⟨⟨[("x", 1)]⟩, [2, 1], [[0], [1]]⟩ : Points Nat) (.one .ell)).toOption
+    = some ⟨⟨[("x", 1)]⟩, [2, 1], [[0], [1]]⟩ := by decide
+
+/-- the other direction of the round trip: the coordinates of `from_coordinates(c)` are `c` -/
+def C12_full_coords_from : Prop :=
+  ∀ (α : Type) (cs : List (Coord α)) (p : Points α), (cs.map (·.name)).Nodup →
+    (∀ c ∈ cs, c.rows.length = prodL c.shape ∧ ∀ r ∈ c.rows, r.length = c.width) →
+    Points.fromCoordinates cs = .ok p → cs ≠ [] →
+    p.coords.map (fun c => (c.name, c.shape, c.width, c.rows)) = cs.map (fun c => (c.name, c.shape, c.width, c.rows))
+
+/-- the invariant of `Points.__init__` is kept by every operation (histories) -/
+def C12_full_history_wf : Prop :=
+  ∀ (α : Type) (p q r : Points α), p.WF → q.WF →
+    (∀ ix, p.getitem ix = .ok r → r.WF) ∧ (∀ ix, p.setitem ix q = .ok r → r.WF) ∧
+    (p.join q = .ok r → r.WF) ∧ (p.cat q = .ok r → r.WF) ∧ (∀ ns, p.repeat ns = .ok r → r.WF) ∧
+    (∀ d, p.unsqueeze d = .ok r → r.WF) ∧ (∀ f, p.arith f q = .ok r → r.WF)
 
 end TPV.Table
